@@ -1,9 +1,163 @@
 """C05 -- exact simulation samples the CTMC's law, decided as a functional characterisation:
 the first-reaction step is the map (E_1..E_n) -> (argmin_j E_j/r_j, min_j E_j/r_j) over the
 positive-rate events, each unit-exponential draw used once for its own event."""
-from ..core import Check
-from .c04 import first_reaction_unit, jump_unit
-from .. import expr
+import sys
+import types
+
+import numpy as np
+
+from ..core import Check, Unit
+from .c04 import first_reaction_unit, jump_unit, shape_specs
+from .stoch import arr, make_stream, global_rng, conj
+from .. import expr, stubs, sym
+from ..sym import all_close, close
+
+
+def dask_stub():
+    """dask.bag by its sequential contract: from_sequence(seq).map(f).compute() == [f(v) for v in seq]"""
+    class Bag(object):
+        def __init__(self, seq):
+            self.seq = list(seq)
+
+        def map(self, f, *a, **k):
+            return Bag([f(v, *a, **k) for v in self.seq])
+
+        def starmap(self, f, **k):
+            return Bag([f(*v, **k) for v in self.seq])
+
+        def compute(self, **k):
+            return list(self.seq)
+    bag = types.ModuleType("dask.bag")
+    bag.from_sequence = lambda seq, **k: Bag(seq)
+    dask = types.ModuleType("dask")
+    dask.bag = bag
+    return dask, bag
+
+
+def parallel_unit(K=2):
+    """solve_stochast(exact=True, parallel=True): each iteration must still run the first-reaction map on
+    INDEPENDENT clocks -- whatever generator the parallel branch hands to the stepping code"""
+    from pygom.model import simulate as simmod
+    from pygom.model import stochastic_simulation as ss
+    from pygom.utilR import distn
+    from .c01 import built
+    spec = [s_ for s_ in shape_specs() if s_.name == "shape_1x2"][0]
+
+    def h(c):
+        m = built(spec)
+        th = [c.real("th_" + p, lo=0, lo_strict=True) for p in spec.params]
+        m.parameters = th
+        m._stochasticParam = None
+        x0 = arr(c, [c.intreal("x0", lo=1, hi=4)])
+        t0 = c.real("t0")
+        T = c.real("T")
+        c.assume(T > t0)
+        m.initial_values = (x0, t0) if c.mode == "sym" else (np.array(x0, float), np.float64(t0))
+        if c.mode == "sym":
+            m._x0 = x0
+        m._state_lims = [(0, None)]
+        streams = []
+        counter = {"n": 0}
+
+        def new_stream(tag):
+            st = make_stream(c, tag)
+            streams.append(st)
+            return st
+
+        class RS(object):
+            """np.random.RandomState: seed=None -> fresh entropy; integer seed -> the stream that seed determines
+            (a NEW generator object positioned at its start, as numpy does)"""
+            def __new__(cls, seed=None):
+                counter["n"] += 1
+                if seed is None:
+                    return new_stream("fresh%d" % counter["n"])
+                return new_stream("seed[%s]" % (seed,))
+        glob = new_stream("g")
+        glob.randint = lambda low, high=None, size=None, **k: np.array([1000 + i for i in range(int(size or 1))])
+        real_njt = ss._newJumpTimes
+        steps = []
+        calls = {"n": 0}
+        real_fr = ss.firstReaction
+
+        def fr(*a, **k):
+            calls["n"] += 1
+            if calls["n"] > K:
+                return 0, 0, 0, 0, False
+            return real_fr(*a, **k)
+
+        def njt(rates, seed=None):
+            before = [(st, len(st.log)) for st in streams]
+            n_streams = len(streams)
+            out = real_njt(rates, seed=seed)
+            used = []
+            for st, n0 in before:
+                used += [e[1] for e in st.log[n0:]]
+            for st in streams[n_streams:]:
+                used += [e[1] for e in st.log]
+            steps.append({"rates": list(rates), "draws": used, "times": list(np.asarray(out, dtype=object).ravel())})
+            return out
+        dask, bag = dask_stub()
+        saved = {k_: sys.modules.get(k_) for k_ in ("dask", "dask.bag")}
+        sys.modules["dask"], sys.modules["dask.bag"] = dask, bag
+        try:
+            with global_rng(glob), stubs.patched((np.random, "RandomState", RS), (ss, "_newJumpTimes", njt), (simmod, "firstReaction", fr),
+                                                  (np.random, "randint", glob.randint)):
+                out = m.solve_stochast(T, 2, exact=True, parallel=True, full_output=True)
+        finally:
+            for k_, v_ in saved.items():
+                if v_ is None:
+                    sys.modules.pop(k_, None)
+                else:
+                    sys.modules[k_] = v_
+        c.reachable("parallel run completed")
+        c.prove(len(out[0]) == 2, "one path per iteration")
+        c.prove(len(steps) >= 1, "the stepping code drew its clocks")
+        for k_, st_ in enumerate(steps):
+            pos = [j for j, r in enumerate(st_["rates"]) if bool(r > 0)]
+            c.prove(len(st_["draws"]) == len(pos), "step %d: one exponential draw per positive-rate event" % k_)
+            c.prove(len(set(st_["draws"])) == len(st_["draws"]), "step %d: the clocks of different events are different (independent) draws" % k_)
+        allnames = [d for st_ in steps for d in st_["draws"]]
+        c.prove(len(set(allnames)) == len(allnames), "no draw is used twice across steps and iterations")
+    return Unit("C05.parallel_branch[shape_1x2,K=%d]" % K, h,
+                bounds={"model": "1 state, 2 events", "iterations": 2, "steps_unwound_in_total": K,
+                        "dask.bag": "sequential contract (map applies the function to every element)"},
+                max_paths=400, replay=lambda vals, label: replay_parallel())
+
+
+def replay_parallel():
+    """real numpy generators, real stepping code, dask by its sequential contract: with equal rates, two events
+    given the same draw tie exactly (probability zero for independent clocks)"""
+    from pygom.model import stochastic_simulation as ss
+    from pygom.model import simulate as simmod
+    from pygom import SimulateOde, Transition, Event
+    m = SimulateOde(state=["X"], param=["a"],
+                    event=[Event(rate="a*X", transition_list=[Transition(origin="X", transition_type="D")]),
+                           Event(rate="a*X", transition_list=[Transition(origin="X", destination="X", transition_type="B")])])
+    m.parameters = [1.0]
+    m.initial_values = (np.array([5.0]), np.float64(0.0))
+    ties = []
+    real = ss._newJumpTimes
+
+    def njt(rates, seed=None):
+        out = real(rates, seed=seed)
+        fin = [v for v in np.asarray(out).ravel() if np.isfinite(v)]
+        if len(set(fin)) != len(fin):
+            ties.append([float(v) for v in fin])
+        return out
+    dask, bag = dask_stub()
+    saved = {k_: sys.modules.get(k_) for k_ in ("dask", "dask.bag")}
+    sys.modules["dask"], sys.modules["dask.bag"] = dask, bag
+    np.random.seed(3)
+    try:
+        with stubs.patched((ss, "_newJumpTimes", njt)):
+            m.solve_stochast(0.5, 3, exact=True, parallel=True, full_output=True)
+    finally:
+        for k_, v_ in saved.items():
+            if v_ is None:
+                sys.modules.pop(k_, None)
+            else:
+                sys.modules[k_] = v_
+    return bool(ties), {"tied_clocks": ties[:3]}
 
 
 class C05(Check):
@@ -18,7 +172,8 @@ class C05(Check):
                    "has the earliest clock, dt is its own clock.  No sampling is performed; the min/argmin theorem is trusted mathematics.")
     stubs = ["numpy.random.exponential(scale, size) = scale * E_k, E_k > 0 (k-th element of a symbolic stream)"]
     assumptions = ["min/argmin theorem for independent exponential clocks (not checked)", "numpy's generator produces i.i.d. unit exponentials",
-                   "multinomial-occupancy / SIR final-size corollaries follow from the per-step law and are not sampled", "rates >= 0"]
+                   "multinomial-occupancy / SIR final-size corollaries follow from the per-step law and are not sampled", "rates >= 0",
+                   "parallel=True: dask.bag replaced by its sequential contract; only the independence of the clocks handed to the stepping code is decided there"]
 
     def units(self, tier, seed):
         us = []
@@ -26,6 +181,7 @@ class C05(Check):
         for S, E in shapes:
             us.append(first_reaction_unit(S, E, asserts=("walk", "map"), tag="C05"))
         us.append(jump_unit(expr.by_name("sir"), True, 2, tag="C05"))
+        us.append(parallel_unit(2))
         return us
 
 
